@@ -176,3 +176,29 @@ func VH_gen2(vm *VM, inst int, cuts bool) {
 	vRunCase(vm, c, "", false)
 	reach("gen2", true)
 }
+
+// ---- generated family 3: every parenthesisation of a conjunction of 4..5 filtering goals ----
+
+// VH_C01_shape: inst = context*2 + (leaves-4). Every goal of the conjunction restricts the answers, so a goal that is
+// dropped, duplicated or reordered by the way the body is flattened changes them.
+func VH_C01_shape(vm *VM, inst int) {
+	n := 4 + inst%2
+	ctx := inst / 2
+	leaves := []string{"q(X)", "r(Y)", "s(X)", "t(Y)", "X \\== Y"}[:n]
+	trees := c03Trees(leaves)
+	body := trees[choice("shape", len(trees))]
+	base := "q(k0). q(k1). q(k2). r(k0). r(k1). r(k2). s(k1). s(k2). t(k0). t(k2). "
+	var c vCase
+	switch ctx {
+	case 0:
+		c = vCase{name: "conj-shape-body", prog: base + "p(X, Y) :- " + body + ".", query: "p(X, Y)."}
+	case 1:
+		c = vCase{name: "conj-shape-query", prog: base, query: body + "."}
+	case 2:
+		c = vCase{name: "conj-shape-call", prog: base, query: "G = (" + body + "), call(G)."}
+	default:
+		c = vCase{name: "conj-shape-findall", prog: base, query: "findall(X-Y, (" + body + "), L)."}
+	}
+	vRunCase(vm, c, "", false)
+	reach("c01/shape", true)
+}
